@@ -94,7 +94,7 @@ def h_ud_name() -> bool:
     comp = sym_int("comp", 0, 0xFFFF)
     sub, ver = sym_int("sub", 0, 255), sym_int("ver", 0, 255)
     assume(sym_not(sym_all([cr == ord("O"), comp == 0x2000])))
-    payload = b"\x10\x20\x30"
+    payload = b"\x10\x20\x30\x00\x00"          # (ends in zero bytes: the parser receives them too)
     if CASE == "UD":
         data, creator = pb.flat(pb.UD(payload, ver=ver, sub=sub, comp=comp)), chr(cr)
     else:
